@@ -169,8 +169,8 @@ Definition api_fp (t : thread) (st : astate) (a : api) : list loc * list assign 
   | ADecodeSR s d =>
       ([src_loc t st s; gDecodersSR; gSge; gTables],
        [(sloc t d, f_struct)])
-  | AInfo o d =>
-      ([sloc t o; pl t st o; gTables], [(sloc t d, f_struct); (ownp t d, f_out)])
+  | AInfo o d =>   (* Info is not read-only on its own object: SencBox.Info sets s.Flags *)
+      ([sloc t o; pl t st o; gTables], [(sloc t o, f_touch); (sloc t d, f_struct); (ownp t d, f_out)])
   | AEncode o d | AEncodeSW o d =>
       ([sloc t o; pl t st o], [(sloc t o, f_touch); (sloc t d, f_struct); (ownp t d, f_out)])
   | ASamples o d =>   (* GetFullSamples calls trun.AddSampleDefaultValues: it updates the fragment it reads *)
